@@ -78,8 +78,11 @@ def run_check(prop, tier, n=None, budget=None, opts=None):
                 return 2
     print("%s %s: VERIF_SEED=%d runs=%d budget=%ds workers=%s repo=%s" % (
         prop, tier, base, n, budget, os.environ.get("VERIF_WORKERS", os.cpu_count()), core.REPO), flush=True)
+    # VERIF_STOP_EARLY=1 (used by the sensitivity self-tests only, never by a registered command): stop dispatching once
+    # a run has reported a violation - the question there is "is it caught", not "how often"
+    early = (lambda r: r[1] == "ok" and bool(r[2].get("violations"))) if os.environ.get("VERIF_STOP_EARLY") == "1" else None
     results = core.run_pool(_task, [(prop, s, tier, opts) for s in seeds], task_timeout=m.TASK_TIMEOUT, wall_budget=budget,
-                            recycle=getattr(m, "RECYCLE_WORKERS", False))
+                            recycle=getattr(m, "RECYCLE_WORKERS", False), on_result=early)
     ok = [pl for (_a, st, pl) in results if st == "ok"]
     harness = [(a[1], pl) for (a, st, pl) in results if st == "harness"]
     timeouts = [(a[1], pl) for (a, st, pl) in results if st == "timeout"]
